@@ -32,6 +32,8 @@ class Transfer:
         self.size = size if size else rng.choice([1, 2, 3, 4, 5, 6, 7, 8, 13, 14, 15, 100, 255, 256, 257, 263, 511, 889, 2000, rng.randint(1, 600)])
         self.data = gen.rand_bytes(rng, self.size)
         self.timeout = rng.choice([5, 10, 50, 100, 500])
+        if self.size <= 14 and rng.random() < 0.04:
+            self.timeout = rng.choice([65535, 65536, 70000, 131072 + 5])     # the API takes a 32-bit timeout in ms
         nsteps = 1 if self.size <= 4 else 1 + (self.size + 6) // 7
         self.nsteps = nsteps
         self.behaviour = rng.choice(["ok"] * 6 + ["abort", "abort", "silent", "late", "toggle", "mux", "kind", "early", "oversize", "race", "race"])
